@@ -306,9 +306,9 @@ def run(sc) -> RunResult:
             res.hit("inconclusive:initial_draw_budget")
             res.log("initial", "draw-budget")
             return res
-        except IndexError as e:
+        except (IndexError, ValueError) as e:
             if "empty" not in str(e):
-                res.violate("C18/unexpected-exception", f"initial() raised IndexError: {e} [{tag}]")
+                res.violate("C18/unexpected-exception", f"initial() raised {type(e).__name__}: {e} [{tag}]")
                 return res
             # random.choice([]) inside initial(): no candidate from an unmet configuration
             res.inconclusive = True
